@@ -45,6 +45,7 @@ class ProgGen:
         self.marks = 0
         self.bump = None
         self.overloads = []
+        self.poke = None
 
     # ------------------------------------------------------------- naming
     def name(self, p):
@@ -500,6 +501,25 @@ class ProgGen:
         W = lambda e: ExprStmt(Call('write', [e]))      # noqa: E731
         sp = ExprStmt(Call('write', [Lit(BYTE, 32)]))
         c = r.random()
+        iarrs = [(n, v) for n, v in arrs if v.t.el == INT]
+        if iarrs and self.poke is not None and c < 0.25:
+            # the element read (or op-assigned) earlier in the statement is overwritten by a later call through the
+            # by-reference array; the earlier read must have been captured
+            n, v = r.choice(iarrs)
+            av = Var(n, v.t)
+            k = r.randrange(v.length)
+            el = Index(av, Lit(INT, k))
+            call = Call(self.poke, [av, Lit(INT, k), Lit(INT, r.randint(50, 99))])
+            out.append(Assign(Index(av, Lit(INT, k)), Lit(INT, r.randint(1, 9))))
+            kind = r.random()
+            if kind < 0.4:
+                out.append(OpAssign(Index(av, Lit(INT, k)), r.choice(['+', '-', '*']), call))
+            elif kind < 0.7:
+                out.append(W(Bin(r.choice(['+', '-', '*']), el, call)))
+            else:
+                out.append(W(Index(ArrLit([el, call, Index(av, Lit(INT, k))], INT, True), Lit(INT, r.randrange(3)))))
+            out += [sp, W(Index(av, Lit(INT, k))), sp]
+            return out
         if arrs and c < 0.55:
             n, v = r.choice(arrs)
             av = Var(n, v.t)
@@ -664,6 +684,9 @@ class ProgGen:
         gi = Var('gi', INT)
         self.bump = Func('bump', [('to', INT, False)], INT,
                          [Decl('old', INT, gi), Assign(gi, Var('to', INT)), Ret(Bin('+', Var('old', INT), Lit(INT, 1)))], tag='bump')
+        pa = Var('pa', Arr(INT, False))
+        self.poke = Func('poke', [('pa', Arr(INT, False), False), ('k', INT, False), ('v', INT, False)], INT,
+                         [Assign(Index(pa, Var('k', INT)), Var('v', INT)), Ret(Bin('+', Var('v', INT), Lit(INT, 1)))], tag='bump')
 
     def program(self):
         r = self.r
@@ -697,7 +720,7 @@ class ProgGen:
                     cn = r.choice(cands)
                     a.append(Var(cn, sc[cn].t))
                 main.body.append(ExprStmt(Call('writeln', [Call(f, a)])))
-        prog = Program(gl, [main] + list(self.funcs) + ([self.bump] if self.bump is not None else [])
+        prog = Program(gl, [main] + list(self.funcs) + ([self.bump, self.poke] if self.bump is not None else [])
                        + [f for fam in self.overloads for f in fam])
         return prog, args
 
